@@ -453,3 +453,28 @@ Proof.
   assert (He : existsb (lfnslot_eqb s) pend = true) by (apply existsb_exists; exists s; split; [exact Hin|apply lfnslot_eqb_refl]).
   rewrite He. reflexivity.
 Qed.
+
+(** * what the reader ignores (C07): deleted slots, everything behind the end mark, long-name runs that do not belong *)
+(** a deleted slot is skipped and discards the long-name slots collected so far *)
+Theorem scan_deleted_slot f slot rest pend acc : length slot = 32%nat -> nthZ slot 0 = 229 ->
+  scan_slots (S f) (slot ++ rest) pend acc = scan_slots f rest [] acc.
+Proof.
+  intros Hl H0. rewrite scan_nonempty_unfold by (destruct slot; [discriminate|discriminate]). cbv zeta.
+  rewrite (firstn_app_exact _ _ 32 Hl), (skipn_app_exact _ _ 32 Hl), Hl. change (32 <? 32)%nat with false. cbv iota.
+  rewrite H0. reflexivity.
+Qed.
+(** the end mark ends the directory: whatever follows it — used-looking slots included — is never looked at *)
+Theorem scan_end_mark f slot rest pend acc : length slot = 32%nat -> nthZ slot 0 = 0 ->
+  scan_slots (S f) (slot ++ rest) pend acc = Ok (acc, [], true).
+Proof.
+  intros Hl H0. rewrite scan_nonempty_unfold by (destruct slot; [discriminate|discriminate]). cbv zeta.
+  rewrite (firstn_app_exact _ _ 32 Hl), Hl. change (32 <? 32)%nat with false. cbv iota. rewrite H0. reflexivity.
+Qed.
+(** a short entry behind long-name slots that are incomplete or carry another name's checksum is returned under its short name *)
+Theorem scan_orphans_ignored f e rest pend acc : sentry_ok e ->
+  lfn_complete pend = false \/ lfn_chk_ok pend (d_name e) = false ->
+  scan_slots (S f) (ser_short e ++ rest) pend acc = scan_slots f rest [] (acc ++ [set_lfn e None]) /\ shown_name (set_lfn e None) = NShort (sfn_display (d_name e)).
+Proof.
+  intros Hs Ho. rewrite scan_short_step by exact Hs. split; [|destruct e; reflexivity].
+  destruct Ho as [Hc|Hk]; [rewrite Hc; reflexivity|]. rewrite Hk. destruct (lfn_complete pend); reflexivity.
+Qed.
